@@ -306,7 +306,7 @@ def check(pid, tier, regen=False):
     n_checked = n_known = n_info = 0
     n_so = {}
     info = {}
-    for _, ev, clause, _x in bad:
+    for jx, ev, clause, _x in bad:
         n_checked += 1
         if (ev["k"], clause) in INFORMATIONAL:
             n_info += 1
@@ -315,6 +315,7 @@ def check(pid, tier, regen=False):
         s = input_sig(ev, clause)
         pl = payload(pid, ev, clause)
         pl["sig"] = s
+        pl["job"] = jobs[jx]          # the worker job (one interpreter, deterministic given its seeds): --replay re-runs it
         n_so[(ev["k"], clause)] = n_so.get((ev["k"], clause), 0) + 1
         so = second_opinion(ev, clause) if n_so[(ev["k"], clause)] <= SO_CAP else "not-run (cap %d per clause)" % SO_CAP
         pl["second_opinion"] = so
@@ -363,7 +364,8 @@ def check(pid, tier, regen=False):
                     "random trees, every sub-node of the held AST as replaced node, all key sets of 0..7 for ite_dict, "
                     "case lists of length <= 4; non-trivial = the utility returned something structurally different "
                     "from its input (or a table/case list that is not empty, or identical() answered True on two "
-                    "different terms), distinct by (utility, input)",
+                    "different terms), distinct by (utility, input), de-duplicated inside each worker (deterministic "
+                    "streams are partitioned, so no input of theirs is seen by two workers)",
             "samples": st["samples"],
             "calls_per_utility": dict(sorted(by_util.items())),
             "clauses_failed_and_examined": n_checked,
@@ -403,6 +405,23 @@ def check(pid, tier, regen=False):
                          "FP and string terms: only the outcome of simplify is checked, not equivalence",
                          "Solver.simplify() keeping the model set is covered by the solver engine (C11..C13), not here"]
     return R.finish()
+
+
+def replay(pid, path):
+    """re-execute the worker job that produced a violation (same seeds, fresh interpreter, current tree) and let TLC
+    judge it again; exit 1 when the same input fails the same clause again"""
+    with open(path) as fh:
+        p = json.load(fh)
+    bad, _stats = C.pipeline("w_util", [p["job"]], "TraceExpr.tla")
+    hits = [(ev, cl) for _, ev, cl, _x in bad if cl == p["clause"] and input_sig(ev, cl) == p["sig"]]
+    if hits:
+        ev, cl = hits[0]
+        print(f"VIOLATION property={pid} replay={path}")
+        print("  reproduced: clause %s on %s" % (cl, json.dumps(payload(pid, ev, cl), default=str)[:1500]))
+        return 1
+    print(f"OK property={pid} replay={path}: the recorded input no longer fails clause {p['clause']} "
+          f"({len(bad)} other rejected event(s) in the re-executed job)")
+    return 0
 
 
 def matches(f, ev, clause):
